@@ -104,9 +104,17 @@ def pump_candidates(w, i=None, e=None):
     return fams
 
 
-def confirm_blowup(ck, w, i=None, e=None, limit=40):
+# how the text an auxiliary pattern is applied to is reached through parse_string (prefix, suffix around the pumped text)
+AUX_WRAP = {"_multicomment_re": ("/** d", " z */\nint v;\n")}
+
+
+def confirm_blowup(ck, w, i=None, e=None, limit=40, rule=None):
     """try pumped families of witness w on the real code; returns (family, times) of the first exponential one"""
-    for fam in pump_candidates(w, i, e)[:limit]:
+    fams = pump_candidates(w, i, e)[:limit]
+    if rule in AUX_WRAP:
+        pre, suf = AUX_WRAP[rule]
+        fams = [(pre + p_, u_, s_ + suf) for p_, u_, s_ in fams] + fams
+    for fam in fams:
         times = timed_family(*fam)
         ck.traces += 1
         if times and exponential(times):
@@ -435,7 +443,7 @@ def run(tier):
     ck.sub("vacuity guard: x(a|a)*y is flagged", "E-RX", "refuted-as-expected", queries=q2.n)
 
     for nm, w, i, e in flagged:
-        fam, times = confirm_blowup(ck, w, i, e)
+        fam, times = confirm_blowup(ck, w, i, e, rule=nm)
         desc = f"rule {nm}: repeat consumes {w[i:e]!r} in two ways (witness {w!r})"
         if fam is None:
             ck.undecided.append(desc + " - no pumped family showed exponential time on the real lexer")
